@@ -74,6 +74,7 @@ deriving Repr, Inhabited
 structure EnumT where
   fullName  : Str
   hasCustom : Bool := false     -- some value carries (sebuf.http.enum_value)
+  values    : List (Int × Str × Option Str) := []   -- (number, proto name, custom JSON value)
 deriving Repr, Inhabited
 
 structure Method where
